@@ -21,6 +21,13 @@ func envOr(k, d string) string {
 	return d
 }
 
+func pkgDirOf(p string) string {
+	if d, ok := pkgDirs[p]; ok {
+		return d
+	}
+	return strings.TrimPrefix(p, modPath+"/")
+}
+
 var pkgDirs = map[string]string{
 	modPath: "",
 	modPath + "/cmd/protoc-gen-gorums/gengorums": "cmd/protoc-gen-gorums/gengorums",
@@ -29,11 +36,14 @@ var pkgDirs = map[string]string{
 
 const contractFile = "zz_contracts_verif.go"
 
+// ExtraSpecFiles are contract files generated for the current run (schema contracts of generated code).
+var ExtraSpecFiles []string
+
 // LoadContracts parses the contract files of the given packages plus the stub files.
 func LoadContracts(pkgs []string) (*Contracts, error) {
 	cs := NewContracts()
 	for _, p := range pkgs {
-		f := filepath.Join(RepoDir, pkgDirs[p], contractFile)
+		f := filepath.Join(RepoDir, pkgDirOf(p), contractFile)
 		if _, err := os.Stat(f); err == nil {
 			if err := cs.ParseFile(f); err != nil {
 				return nil, err
@@ -42,6 +52,7 @@ func LoadContracts(pkgs []string) (*Contracts, error) {
 	}
 	stubs, _ := filepath.Glob(filepath.Join(VerifDir, "stubs", "*.spec"))
 	sort.Strings(stubs)
+	stubs = append(stubs, ExtraSpecFiles...)
 	for _, f := range stubs {
 		if err := cs.ParseFile(f); err != nil {
 			return nil, err
@@ -135,6 +146,8 @@ func cmdVerify(args []string) int {
 			sweep = true
 		case "-all":
 			pkgs = allPkgs()
+		case "-gen":
+			pkgs = []string{modPath + "/cmd/protoc-gen-gorums/gengorums"}
 		default:
 			names = append(names, a)
 		}
